@@ -68,6 +68,15 @@ class Taint:
                     if k:
                         self.field_kind[node.target.attr] = k
 
+    def _properties(self) -> dict:
+        if not hasattr(self, "_prop_cache"):
+            d = {}
+            for f in self.model.all_functions():
+                if f.is_property:
+                    d.setdefault(f.name, []).append(f)
+            self._prop_cache = d
+        return self._prop_cache
+
     def kind_of(self, fi: FuncInfo, e, ctx=None) -> str:
         """ctx: name -> kind for this function's locals and parameters (default: the global tables)"""
         if e is None:
@@ -79,7 +88,15 @@ class Taint:
                 return ctx.get(e.id, "")
             return self.local_kind.get((fi.qualname, e.id)) or self.param_kind.get((fi.qualname, e.id), "")
         if isinstance(e, ast.Attribute):
-            return self.field_kind.get(e.attr, "")
+            k = self.field_kind.get(e.attr, "")
+            if k:
+                return k
+            # a property: the kind returned by ANY implementation of it (the receiver's class is not known)
+            for pf in self._properties().get(e.attr, ()):
+                k = self.intrinsic_return.get(pf.qualname, "")
+                if k:
+                    return k
+            return ""
         if isinstance(e, ast.IfExp):
             return self.kind_of(fi, e.body, ctx) or self.kind_of(fi, e.orelse, ctx)
         if isinstance(e, ast.BinOp) and isinstance(e.op, (ast.BitOr, ast.BitAnd, ast.Sub, ast.BitXor)):
